@@ -955,6 +955,8 @@ def _partition_point(w, m, st, callee, args, term):
         if mm:
             elem = Ref(("val", ty_.fresh(w.prog, mm.group(1), ("elem", w.n(st)))))
     w.probe(m, st, clo, [elem if elem is not None else _elem_of(w, m, st, clo, "elem")])
+    # (recorded for the exact-lookup rules: what index partition_point yields is not modelled, only that it is one)
+    st.log.append((("ppoint", tab if isinstance(tab, str) else "?"), None))
     return Sym(("ppidx", w.n(st)), "usize")
 
 
